@@ -581,7 +581,7 @@ def gen_C07(rng, tier):
         L += ['new 3 bv from_bits %s' % bits_lit(n + k, v), 'eq 0 3', 'new 4 bv from_bits %s' % bits_lit(n, v), 'm 4 push_bit 0', 'eq 0 4', 'eq 3 4' ]
         cases.append(L)
     # scans across tens of thousands of words without a hit (a scan must not cost stack or time per word beyond a loop step)
-    n = (4000000 if tier == 'quick' else 12000000) + rng.randrange(0, 64)
+    n = 12000000 + rng.randrange(0, 64)
     L = ['case C07-long-scans n=%d' % n, 'new 0 bv from_bit 0 %d' % n, 'm 0 set_bit 5 1', 'm 0 set_bit %d 1' % (n - 1),
          'q 0 successor1 6', 'q 0 predecessor1 %d' % (n - 2), 'q 0 successor1 0', 'q 0 select1 1', 'q 0 select1 2', 'q 0 rank1 %d' % n, 'q 0 successor0 0', 'q 0 select0 %d' % (n - 3),
          'new 1 bv from_bit 1 %d' % n, 'm 1 set_bit 7 0', 'm 1 set_bit %d 0' % (n - 2),
